@@ -59,3 +59,38 @@ Example C11_example :
   end.
 Proof. vm_compute. repeat split; reflexivity. Qed.
 Print Assumptions C11_example.
+
+(** Tie to the source by translation: the modifiers of class URL (yarl/_url.py) are re-read
+    from the working tree on every run (harness/gen_model.py, modifier scheme: parameters of
+    the documented types, isinstance decided by the declared type, cached properties bound
+    in source order, from_parts as the constructor of the result) and proved equal to the
+    model functions the frame theorems above are about.  with_port takes None | bool | int
+    (bool rejected with TypeError, range checked); origin() is the cached _origin. *)
+From Coq Require Import ZArith.
+From Yarl Require Import Model.Url Model.GenTypes Generated.UrlGen Proofs.GenUrlProofs.
+Theorem C11_source_with_scheme : forall (O : oracles) (u : url) (s : str), gen_with_scheme O u s = with_scheme O u s.
+Proof. exact gen_with_scheme_ok. Qed.
+Print Assumptions C11_source_with_scheme.
+Theorem C11_source_with_user : forall (B : backend) (u : url) (x : option str), gen_with_user B u x = with_user B u x.
+Proof. exact gen_with_user_ok. Qed.
+Print Assumptions C11_source_with_user.
+Theorem C11_source_with_password : forall (B : backend) (u : url) (x : option str), gen_with_password B u x = with_password B u x.
+Proof. exact gen_with_password_ok. Qed.
+Print Assumptions C11_source_with_password.
+Theorem C11_source_with_host : forall (O : oracles) (B : backend) (u : url) (h : str), gen_with_host O B u h = with_host O B u h.
+Proof. exact gen_with_host_ok. Qed.
+Print Assumptions C11_source_with_host.
+Theorem C11_source_with_port : forall (B : backend) (u : url) (p : portarg), gen_with_port B u p = with_port B u p.
+Proof. exact gen_with_port_ok. Qed.
+Print Assumptions C11_source_with_port.
+Theorem C11_source_with_fragment : forall (B : backend) (u : url) (f : option str), gen_with_fragment B u f = with_fragment B u f.
+Proof. exact gen_with_fragment_ok. Qed.
+Print Assumptions C11_source_with_fragment.
+Theorem C11_source_with_path : forall (B : backend) (u : url) (p : str) (e kq kf : bool),
+  gen_with_path B u p e kq kf = with_path B u p e kq kf.
+Proof. exact gen_with_path_ok. Qed.
+Print Assumptions C11_source_with_path.
+Theorem C11_source_origin_relative_parent : forall (B : backend) (u : url),
+  gen_origin B u = origin B u /\ gen_relative u = relative u /\ gen_parent u = Ok (parent u).
+Proof. intros B u. split; [apply gen_origin_ok|split; [apply gen_relative_ok|apply gen_parent_ok]]. Qed.
+Print Assumptions C11_source_origin_relative_parent.
